@@ -4,8 +4,14 @@
 BIG = dict(name="big", module="Gen_Poly", constants=dict(K=1, MaxV=3, WithHoles=False, HoleMinA2=0, BigN="{8, 65, 130}"), invariants=["ShellOK"])
 
 
-def poly_runs(tier):
-    return _runs(tier) + [BIG]
+# long rectangles W x 5 with a vertex at every integer x of the top side (W + 4 coordinates, small coordinates): sizes around the
+# powers of two at which implementations like to switch strategy, with every remainder modulo 4 (BigN entry = 100000 + W)
+HUGE = dict(name="huge", module="Gen_Poly", constants=dict(K=1, MaxV=3, WithHoles=False, HoleMinA2=0, BigN="{100066, 101027, 101500, 104500}"),
+            invariants=["ShellOK"], workers=4)
+
+
+def poly_runs(tier, huge=False):
+    return _runs(tier) + [BIG] + ([HUGE] if huge else [])
 
 
 def _runs(tier):
